@@ -177,9 +177,15 @@ class ModbusUdpProtocol(protocol.DatagramProtocol):
             units = self.store.slaves()
             single = self.store.single
             continuation = lambda request: self._execute(request, addr)
-            self.framer.processIncomingPacket(data, continuation,
-                                              single=single,
-                                              unit=units)
+            try:
+                self.framer.processIncomingPacket(data, continuation,
+                                                  single=single,
+                                                  unit=units)
+            except Exception as ex:
+                # there is no connection to drop: discard the datagram, or
+                # it stays in the framer and blocks every later request
+                _logger.debug("Unable to process datagram: %s" % ex)
+                self.framer.resetFrame()
 
     def _execute(self, request, addr):
         """ Executes the request and returns the result
